@@ -1,5 +1,5 @@
 """C09 — get_reusable_executor returns a live, correctly configured singleton (decision model M1R + E1)"""
 from ..e1 import ReusePart
 
-PROP = ReusePart("C09", ["C09", "C03", "C01"], ["LokyModel.Props.C09"], quick=1500, thorough=30000,
+PROP = ReusePart("C09", ["C09", "C03", "C01"], ["LokyModel.Props.C09", "LokyModel.Props.C09History"], quick=1500, thorough=30000,
                  families=[("reuse", 3), ("reusecrash", 2), ("reusegrow", 3), ("reusebig", 1), ("reusecb", 1), ("reusecancel", 1), ("reusecbsub", 1), ("reusebigcrash", 1), ("reuseput", 1)])
